@@ -1,11 +1,37 @@
-(* C01 -- placeholder while the proofs are being developed: states only that acceptance implies the by-itself checks. *)
+(* C01 -- no unauthorised or double spending in any fully validated block.
+   For all hash / signature functions (parameters, nothing assumed about them), all consensus parameters, all states
+   and candidate blocks: acceptance by full validation (above the checkpoint horizon, FV) implies that every non-reward
+   input spends an output that is unspent in the ledger state of the block's PARENT (hence not created in the block
+   itself: created outputs are not in the parent's state), carries a real signature that verifies under the spent
+   output's key over the encoding of the transaction with signatures blanked, and that no reference occurs twice in the
+   block.  C01_signed_message_complete: that signed encoding determines ALL references and ALL outputs.
+   C01_chain_replay: along any chain of stored blocks every spend removed an output that was present (replay succeeds
+   and equals the stored state), so no output is spent twice on one chain.
+   "The prior state is left exactly as it was" is a tie obligation (digest before/after), see DESIGN.md section 3. *)
 From stdpp Require Import gmap.
 From Coq Require Import NArith ZArith.
-From SkV Require Import Bytes Codec Ledger ChainState Pow Validate.
-Theorem C01_accept_passes_by_itself : forall sha scrypt blake verify P s b now s',
-  add_block sha scrypt blake verify P s b now = Ok s' -> v_block_by_itself sha P b now = Ok tt.
-Proof.
-  intros sha scrypt blake verify P s b now s' H. unfold add_block, bind in H.
-  destruct (v_block_by_itself sha P b now) as [[]|k] eqn:E; [reflexivity | discriminate].
-Qed.
-Print Assumptions C01_accept_passes_by_itself.
+From SkV Require Import Bytes Codec CodecProofs Ledger ChainState Pow Validate ChainDefs ValidProofs ReplayProofs.
+
+Theorem C01_accept_sound : forall sha scrypt blake verify P s b now s',
+  add_block sha scrypt blake verify P s b now = Ok s' -> FV P b ->
+  exists cb rest u, b_txs b = cb :: rest /\ cs_utxo s !! b_prev b = Some u /\
+    Forall (fun t => Forall (fun i => exists o sg, u !! ref_key (in_ref i) = Some o /\ in_sig i = SigSecp sg /\
+                                  verify (out_pk o) sg (enc_tx (signable t)) = 1%N) (tx_inputs t)) rest /\
+    NoDup (concat (map tx_refs rest)) /\
+    Forall (fun t => tx_inputs t <> [] /\ Forall (fun i => thin_air (in_ref i) = false) (tx_inputs t)) rest.
+Proof. exact accept_sound_spend. Qed.
+
+Theorem C01_signed_message_complete : forall a b, wf_tx a = true -> wf_tx b = true ->
+  enc_tx (signable a) = enc_tx (signable b) ->
+  map in_ref (tx_inputs a) = map in_ref (tx_inputs b) /\ tx_outputs a = tx_outputs b.
+Proof. exact signable_determines. Qed.
+
+(* on every chain of every reachable state the stored unspent set is the successful replay of the chain: each spend
+   deleted an output that was present at that point (spend_inputs fails otherwise) *)
+Theorem C01_chain_replay : forall sha l s ch b, arrivals sha l s -> stored sha s b -> path sha s ch b ->
+  replay_utxo sha ∅ ch = cs_utxo s !! block_id sha b /\ is_Some (cs_utxo s !! block_id sha b).
+Proof. exact utxo_replay. Qed.
+
+Print Assumptions C01_accept_sound.
+Print Assumptions C01_signed_message_complete.
+Print Assumptions C01_chain_replay.
